@@ -230,3 +230,39 @@ def run(ctx):
                 else:
                     ctx.unrecognised("C15.R9", inst, m_.where(n), "end-of-input flag computed from an expression of unknown origin")
     ctx.check("C15.R9", "reader: json.loads per line of the file object; no str.splitlines", bool(loads) and not bad, di.where(bad[0]) if bad else di.where(), f"AvroJSONDecoder.__init__: {[norm(b)[:60] for b in bad]}", "str.splitlines() also splits on U+0085, U+2028, U+2029 (and \\x1c-\\x1e), which may occur raw inside a JSON string: a document the writer produced is cut in the middle")
+
+    # ---- R10 the object-key state is Optional[str]: the empty string is a key ---------------------------------------------
+    ctx.rule("C15.R10", "the pending object key of encoder and decoder is compared with None (is / is not), never tested by truth: '' is a legal map key", floor=2)
+    n_key_tests = 0
+    for K, setter in ((encJ, "write_object_key"), (decJ, "read_object_key")):
+        sm = K.methods.get(setter)
+        key_attrs = set()
+        if sm is not None and len(sm.pos_params) >= 2:
+            for n in walk_local(sm.node):
+                if isinstance(n, ast.Assign) and isinstance(n.value, ast.Name) and n.value.id == sm.pos_params[1]:
+                    key_attrs |= {norm(t) for t in n.targets if isinstance(t, ast.Attribute)}
+        if not key_attrs:
+            ctx.unrecognised("C15.R10", f"{K.name}: key state", K.where() if hasattr(K, "where") else "", f"{setter} does not store its argument in an attribute")
+            continue
+        for m_ in K.methods.values():
+            # names that hold a copy of the key (popped from the stack together with the container)
+            for n in ast.walk(m_.node):
+                tests = []
+                if isinstance(n, (ast.If, ast.While, ast.IfExp)):
+                    tests.append(n.test)
+                elif isinstance(n, ast.Assert):
+                    tests.append(n.test)
+                elif isinstance(n, ast.BoolOp):
+                    tests.extend(n.values)
+                elif isinstance(n, ast.UnaryOp) and isinstance(n.op, ast.Not):
+                    tests.append(n.operand)
+                for t in tests:
+                    if norm(t) in key_attrs:
+                        n_key_tests += 1
+                        ctx.violation("C15.R10", f"{m_.qualname}: `{norm(t)}` tested by truth", m_.where(n), f"{m_.qualname}: truth test of {norm(t)}", "the empty string is a legal map key (and a legal JSON object key): taken for 'no key' the value is not stored / not found, and a map that validate accepts and the binary codec round-trips cannot be written or read as JSON")
+            for n in ast.walk(m_.node):
+                if isinstance(n, ast.Compare) and len(n.ops) == 1 and isinstance(n.ops[0], (ast.Is, ast.IsNot)) and norm(n.left) in key_attrs and norm(n.comparators[0]) == "None":
+                    n_key_tests += 1
+                    ctx.holds("C15.R10", f"{m_.qualname}: `{norm(n)}`", m_.where(n))
+    if n_key_tests < 2:
+        ctx.unrecognised("C15.R10", "key state tests", encJ.methods["write_value"].where() if "write_value" in encJ.methods else "", f"only {n_key_tests} tests of the pending key found (encoder write_value and decoder descent expected)")
